@@ -390,9 +390,10 @@ theorem step_counters (var : Variant) (hv : var.d8 = false) (sw : Sw) (op : Op) 
     obtain ⟨rfl, rfl⟩ := h
     simp [countStep]
   | flowAdd r =>
-    simp only [step, Except.ok.injEq, Prod.mk.injEq] at h
-    obtain ⟨rfl, rfl⟩ := h
-    simp [countStep]
+    simp only [step] at h
+    split at h <;> (simp only [Except.ok.injEq, Prod.mk.injEq] at h; obtain ⟨rfl, rfl⟩ := h)
+    · simp only [countStep]; rw [tally_noFrames _ _ (by intro p b hm; simp at hm)]
+    · simp [countStep]
   | link no down =>
     simp only [step, Except.ok.injEq, Prod.mk.injEq] at h
     obtain ⟨rfl, rfl⟩ := h
@@ -563,7 +564,9 @@ theorem step_cfg (var : Variant) (hv : var.d8 = false) (sw : Sw) (op : Op) (sw' 
     subst e
     exact ⟨rfl, rfl⟩
   | setConfig fl ml => simp only [step, Except.ok.injEq, Prod.mk.injEq] at h; obtain ⟨rfl, _⟩ := h; exact ⟨rfl, rfl⟩
-  | flowAdd r => simp only [step, Except.ok.injEq, Prod.mk.injEq] at h; obtain ⟨rfl, _⟩ := h; exact ⟨rfl, rfl⟩
+  | flowAdd r =>
+    simp only [step] at h
+    split at h <;> (simp only [Except.ok.injEq, Prod.mk.injEq] at h; obtain ⟨rfl, _⟩ := h; exact ⟨rfl, rfl⟩)
   | link no down => simp only [step, Except.ok.injEq, Prod.mk.injEq] at h; obtain ⟨rfl, _⟩ := h; exact ⟨rfl, rfl⟩
   | packetOut acts f inPort =>
     simp only [step] at h
